@@ -767,6 +767,12 @@ class Program:
                 ty = inner[:idx]
                 trait = inner[idx + 4:]
                 tl = last_ident(trait)
+                if rest.count("::") >= 2:
+                    # `<T as Trait>::method::{closure#0}::helper`: a fn item nested inside a trait method
+                    tail = rest if rest.startswith("::") else "::" + rest
+                    nested = self._prefer([f for nm, fl in self.by_name.items() if nm.endswith(tail) for f in fl])
+                    if len(nested) == 1:
+                        return nested[0]
                 cands = self._prefer([f for (t, f) in self.methods.get((last_ident(ty), method), []) if t == tl])
                 if len(cands) == 1:
                     return cands[0]
@@ -829,6 +835,21 @@ class Program:
             best = [f for f in cands if f.name == path or path.endswith("::" + f.name) or f.name.endswith("::" + path)]
             if len(best) == 1:
                 return best[0]
+        if len(segs) >= 2 and "{" not in path:
+            # a fn item nested in a method (`Type::<..>::method::helper`): printed with the type path at the call
+            # site, with the impl span in the definition; match on the unique `::method::helper` suffix
+            suf = "::%s::%s" % (segs[-2], segs[-1])
+            idx = self.__dict__.setdefault("_suffix2", None)
+            if idx is None:
+                idx = {}
+                for nm, fl in self.by_name.items():
+                    p2 = nm.split("::")
+                    if len(p2) >= 2:
+                        idx.setdefault("::%s::%s" % (p2[-2], p2[-1]), []).extend(fl)
+                self._suffix2 = idx
+            c2 = self._prefer(idx.get(suf, []))
+            if len(c2) == 1:
+                return c2[0]
         return None
 
     @staticmethod
